@@ -14,6 +14,7 @@ C03 — Per-line and header image metadata equal what each file record encodes.
 import Alos2.Proofs.Lines
 import Alos2.Proofs.Fields
 import Alos2.Proofs.Calendar
+import Alos2.Proofs.ImageOpen
 
 namespace Alos2.C03
 
@@ -56,5 +57,48 @@ theorem pipeline_shape :
 
 /-- non-vacuity: the documented level-1.5 group has 25 per-line coordinates and 8 per-file constants (level 1.1: 39 and 10) -/
 example : Spec.lineVars15.length = 25 ∧ Spec.lineAttrs15.length = 8 ∧ Spec.lineVars11.length = 39 ∧ Spec.lineAttrs11.length = 10 := by decide
+
+/-- THE IMAGE GROUP AS THE READER BUILDS IT (`open_image` without caches: descriptor, line records chunk by chunk through the
+    layout interpreter, offsets rebased, `transform_metadata`): whenever the open succeeds on a file whose n ≥ 1 line records
+    are of the processed-data kind (level 1.5 / 3.1; resp. the signal-data kind, level 1.1), the group's per-line variables hold
+    one entry per record in file order and the per-file constants come from the first record (`Spec.lineTree`), the optional
+    header attributes are present exactly when their header field is non-blank, `coordinates` lists the variables — for every
+    file content and every `records_per_chunk` -/
+theorem image_group (file : Bytes) (name : String) (rpc : Nat) (gname : String) (g : ImageGroup)
+    (h : openImageFile file name rpc = .ok (gname, g)) (header : Val) (recs : List Val)
+    (hr : readImageRecords file rpc = .ok (header, recs)) (hn : 0 < recs.length) :
+    ((∀ r ∈ recs, IsLineRecord Gen.processedDataRecord r) →
+      ∃ (vars : List (String × GVar Leaf)) (attrs : KVs Leaf) (hattrs : KVs Leaf),
+        g.group = .mk vars [] (kvUnion attrs (kvUnion hattrs [("coordinates", .list (vars.map (fun kv => .cstr kv.1)))])) ∧
+        (Grp.mk vars [] attrs).sortKeys =
+          (Spec.lineTree Spec.lineVars15 Spec.lineAttrs15 recs.length).map (Sym.eval (.list recs)) ∧
+        sortByKey hattrs = (PVal.mapKvs (Sym.eval header) Spec.headerAttrs).filter (fun kv => headerAttrPresent header kv.1)) ∧
+    ((∀ r ∈ recs, IsLineRecord Gen.signalDataRecord r) →
+      ∃ (vars : List (String × GVar Leaf)) (attrs : KVs Leaf) (hattrs : KVs Leaf),
+        g.group = .mk vars [] (kvUnion attrs (kvUnion hattrs [("coordinates", .list (vars.map (fun kv => .cstr kv.1)))])) ∧
+        (Grp.mk vars [] attrs).sortKeys =
+          (Spec.lineTree Spec.lineVars11 Spec.lineAttrs11 recs.length).map (Sym.eval (.list recs)) ∧
+        sortByKey hattrs = (PVal.mapKvs (Sym.eval header) Spec.headerAttrs).filter (fun kv => headerAttrPresent header kv.1)) :=
+  ⟨openImageFile_group_15 file name rpc gname g h header recs hr hn, openImageFile_group_11 file name rpc gname g h header recs hr hn⟩
+
+/-- every record the reader returns is a parse of one of the two line layouts (addresses rebased), and what the lazy array
+    receives (byte ranges, shape, type code, dtype) is read off those records and the header -/
+theorem image_array (file : Bytes) (name : String) (rpc : Nat) (gname : String) (g : ImageGroup)
+    (h : openImageFile file name rpc = .ok (gname, g)) :
+    ∃ (header : Val) (recs : List Val),
+      parseRecord Gen.imageFileDescriptor (file.take 720) = .ok header ∧
+      readImageRecords file rpc = .ok (header, recs) ∧
+      groupName name = .ok gname ∧
+      g.array.rpc = rpc ∧
+      header.getPath ["prefix_suffix_data_locators", "sar_data_format_type_code"] = some (.leaf (.str g.array.typeCode)) ∧
+      intAt header ["sar_related_data_in_the_record", "number_of_lines_per_dataset"] = .ok g.array.shape.1 ∧
+      intAt header ["sar_related_data_in_the_record", "number_of_data_groups_per_line"] = .ok g.array.shape.2 ∧
+      (Gen.dtypes.find? (fun d => d.1 = g.array.typeCode)).map (fun d => d.2.1) = some g.array.dtype ∧
+      recs.mapM (fun r => do
+        let a ← intAt r ["data", "start"]
+        let b ← intAt r ["data", "stop"]
+        pure (a, b)) = .ok g.array.byteRanges ∧
+      (∀ r ∈ recs, IsLineRecord Gen.signalDataRecord r ∨ IsLineRecord Gen.processedDataRecord r) :=
+  openImageFile_array file name rpc gname g h
 
 end Alos2.C03
